@@ -141,6 +141,10 @@ def step (srt : Bool) (g : G) : List String → G × String
 def step2 (s : G × Bool) (l : List String) : (G × Bool) × String :=
   match l with
   | ["orderfree"] => ((s.1, true), "ok")
+  -- `ports n i…`: the order in which the harness first asks node n for its indexed ports. The model's
+  -- nodes have all their ports (and every port's listener) from the start – which is what the real
+  -- `Out`/`In` must amount to in whatever order they are called – so the line changes nothing here.
+  | "ports" :: _ :: _ :: _ => (s, "ok")
   | _ => let (g, out) := step s.2 s.1 l; ((g, s.2), out)
 
 def handler : Handler := { σ := G × Bool, init := ({}, false), step := step2 }
